@@ -489,6 +489,13 @@ BRIDGE = {
         "theorems": ["process_events_sim", "handle_health_check_total", "handle_health_check_no_listener", "send_client_stats_eq"],
         "props": ["C08", "C09", "C15", "C17", "C18", "C19"],
     },
+    # property theorems stated directly about the regenerated code (bridge theorem composed with the model-level theorems)
+    "Rough.Props.GenLoop": {
+        "rs_modules": ["Server", "Responder", "Request", "Online", "Message", "Merkle", "StatsCore"],
+        "namespace": "Rough.Props.GenLoop",
+        "theorems": ["process_events_sim_env", "GEN_process_events_returns", "GEN_process_events_bounded"],
+        "props": ["C08", "C18", "C19"],
+    },
     "Rough.Bridge.Stats": {
         "rs_modules": ["StatsCore", "StatsAgg", "StatsPer"],
         "theorems": ["uniq_init", "uniq_record", "per_client_record_eq", "per_client_clear_eq", "per_client_totals_eq",
@@ -533,6 +540,7 @@ _BRIDGE_WHAT = {
     "Rough.Bridge.Grease": "grease.rs (new, should_add_error, add_errors, randomly_order_tags, corrupt_response_signature; the random generator is a tape of draws)",
     "Rough.Bridge.Tables": "tag.rs / version.rs (wire values, from_wire, is_nested, names, signing contexts, supported-versions list: the tables the other generated modules use through externs)",
     "Rough.Bridge.ProcessEvents": "server.rs process_events / handle_health_check / send_client_stats (poll tokens, the three event arms, the backlog flag and the post-loop service, the accept loop, publication of the recorder's entries) refine the model EventLoop.processEvents the LOOP_* theorems are about",
+    "Rough.Props.GenLoop": "server.rs process_events as regenerated from the source returns normally from every invariant-satisfying state for every token set, queue, clock, drawable fault injection and log level (GEN_process_events_returns) and puts at most 16*batch_size datagrams on the wire per call (GEN_process_events_bounded)",
     "Rough.Bridge.SendResponses": "responder.rs send_responses (the whole batch loop incl. failing sends, fault injection, lazily evaluated debug! arguments, statistics events)",
 }
 for _pid, _cfg in PROPS.items():
